@@ -2,7 +2,7 @@ D = "internal/dnsserver/"
 
 CHECK = dict(
     level="exploration",
-    level_text="Generated-input search: a bounded-exhaustive (shape, ttl, age) grid and rapid-drawn ages through fromCacheItem, and rapid stateful histories (queries interleaved with clock advances) compared with a fresh-instance twin, a TTL inequality and an upstream-call counter. Held on N cases is evidence, not proof; exhaustive only for the listed ttl values on a 100 ms grid.",
+    level_text="Generated-input search: a bounded-exhaustive (shape, ttl, age) grid and rapid-drawn ages through fromCacheItem, and rapid stateful histories (queries interleaved with clock advances) compared with a fresh-instance twin, a TTL inequality and an upstream-call counter (answer kinds include truncated NXDOMAIN / NODATA / SERVFAIL, upstream errors and silence; near-miss repeats; concurrent clients under the race detector). A wired part runs histories of clients with different locations and ECS settings through ratelimitmw (whose pooled RequestInfo the ECS cache reads) + ecscache and compares every answer with a fresh stack's. Held on N cases is evidence, not proof; exhaustive only for the listed ttl values on a 100 ms grid.",
     level_note="Trusts miekg/dns, gcache/agdcache expiry, and that rewinding stored timestamps is equivalent to the passage of time; upstream is assumed EDNS-conforming (echoes OPT and DO).",
     technique="property-based testing (rapid): bounded-exhaustive age grid + stateful histories vs fresh-twin differential and TTL inequality",
     assumptions=[
@@ -23,6 +23,9 @@ CHECK = dict(
             dict(name="agerapid", run="^TestVerifC04EcsAgeRapid$", quick=20000, thorough=400000, shards_thorough=4),
             dict(name="history", run="^TestVerifC04EcsHistory$", quick=3000, thorough=480000, shards_thorough=12),
             dict(name="realtime", run="^TestVerifC04EcsRealTime$", quick=4, thorough=240, shards_thorough=12),
+        ]),
+        dict(name="wired", dir="internal/dnssvc", src=["C05/dnssvc", "C04/wired"], runs=[
+            dict(name="behind-ratelimitmw", run="^TestVerifC04Wired$", quick=1500, thorough=120000, shards_thorough=6),
         ]),
     ],
 )
